@@ -458,13 +458,13 @@ var querySelGens = []selGen{
 		return Sel{Text: a + ": __typename"}
 	},
 	func(r *hx.Rand, a string, nv func(string) string) Sel {
-		return Sel{Text: a + `: __type(name: "In") { name kind inputFields { name defaultValue type { name kind ofType { name } } } }`}
+		return Sel{Text: "introspection_" + a + `: __type(name: "In") { name kind inputFields { name defaultValue type { name kind ofType { name } } } }`}
 	},
 	func(r *hx.Rand, a string, nv func(string) string) Sel {
-		return Sel{Text: a + `: __type(name: "Query") { fields { name args { name defaultValue type { name kind } } type { name kind } } }`}
+		return Sel{Text: "introspection_" + a + `: __type(name: "Query") { fields { name args { name defaultValue type { name kind } } type { name kind } } }`}
 	},
 	func(r *hx.Rand, a string, nv func(string) string) Sel {
-		return Sel{Text: a + `: __schema { queryType { name } mutationType { name } subscriptionType { name } directives { name locations args { name } } types { name kind possibleTypes { name } enumValues(includeDeprecated: true) { name isDeprecated } } }`}
+		return Sel{Text: "introspection_" + a + `: __schema { queryType { name } mutationType { name } subscriptionType { name } directives { name locations args { name } } types { name kind possibleTypes { name } enumValues(includeDeprecated: true) { name isDeprecated } } }`}
 	},
 }
 
